@@ -367,6 +367,7 @@ def c04(ctx):
         ctx.export_validate("c04x-v2", dict(PolA=1, PolB=3, Setup="ake", MaxSend=2, MaxFlight=2), "fifo-data", drain=True)
         ctx.random_validate("data", 48, 60)
         ctx.random_validate("fragsweep", 16, 30)
+        frag_model(ctx, sender=False)
     else:
         ctx.model("c04-v3-5x4", dict(DATA33, MaxSend=5, MaxFlight=4), inv)
         ctx.model("c04-v2-4x4", dict(PolA=1, PolB=1, Setup="ake", MaxSend=4, MaxFlight=4), inv)
@@ -375,6 +376,7 @@ def c04(ctx):
         ctx.export_validate("c04x-v2", dict(PolA=1, PolB=3, Setup="ake", MaxSend=3, MaxFlight=3), "fifo-data", drain=True)
         ctx.random_validate("data", 400, 200)
         ctx.random_validate("fragsweep", 64, 120)
+        frag_model(ctx, sender=False)
 
 
 def c05(ctx):
